@@ -204,6 +204,19 @@ var sumTenths = func() float64 { a, b := 0.1, 0.2; return a + b }() // 0.3000000
 
 func ff(x float64) string { return strconv.FormatFloat(x, 'f', -1, 64) }
 
+// subMsTimes are time values with a sub-millisecond part (written "<canonical text>+<ns>ns"): the wire
+// text is the value truncated to the millisecond.  They exist for constructor / Set only and are not
+// part of C02's domain (UTC times at millisecond precision).
+var subMsTimes = []string{"19991231-23:59:59.123+500000ns", "19991231-23:59:59.123+999999ns", "20240229-12:00:00.999+500000ns", "20240229-12:00:00.999+999999ns", "20240229-12:00:00.000+1ns"}
+
+// wireText is the canonical text a value puts on the wire.
+func wireText(v string) string {
+	if i := strings.IndexByte(v, '+'); i >= 0 && strings.HasSuffix(v, "ns") {
+		return v[:i]
+	}
+	return v
+}
+
 func longStr(n int) string { return strings.Repeat("x", n) }
 
 // value alphabets (canonical text); tag-dependent strings are added per template
@@ -212,14 +225,20 @@ var alphabet = map[string][]string{
 	"Int":    {"7", "0", "-1", "1", "9", "10", "99", "100", strconv.Itoa(math.MaxInt64), strconv.Itoa(math.MinInt64)},
 	"Uint":   {"5", "0", "1", "18446744073709551615"},
 	"Float":  {"1.5", "0", "-0.001", strconv.FormatFloat(1e21, 'f', -1, 64), strconv.FormatFloat(5e-324, 'f', -1, 64), strconv.FormatFloat(math.MaxFloat64, 'f', -1, 64), "-1",
-		ff(sumTenths), ff(math.Pi), ff(9007199254740992), ff(2.2250738585072014e-308), "123456.789", ff(1.0 / 3.0)},
+		ff(sumTenths), ff(math.Pi), ff(9007199254740992), ff(2.2250738585072014e-308), "123456.789", ff(1.0 / 3.0),
+		ff(-1e19), ff(1e19), ff(-math.MaxFloat64), ff(-9223372036854777856), ff(9223372036854775808)},
 	"Time":   {"19991231-23:59:59.999", "00010101-00:00:00.000", "99991231-23:59:59.999", "20240229-12:00:00.001"},
 	"Bool":   {"Y", "N"},
 	"Raw":    {"r", "r=1", "10=000", "\x00\xff"},
 }
 
+var withSubMs = false // set for C01 / C17 (not C02)
+
 func valuesFor(typ string, t *tmpl) []string {
 	vs := append([]string{}, alphabet[typ]...)
+	if typ == "Time" && withSubMs {
+		vs = append(vs, subMsTimes...)
+	}
 	if typ == "String" || typ == "Raw" {
 		for _, tg := range allTags(t) {
 			vs = append(vs, tg+"=", tg+"=1", "x"+tg+"=2")
@@ -255,11 +274,19 @@ func decode(typ, s string) interface{} {
 		}
 		return v
 	case "Time":
+		extra := time.Duration(0)
+		if i := strings.IndexByte(s, '+'); i >= 0 {
+			ns, err := strconv.Atoi(strings.TrimSuffix(s[i+1:], "ns"))
+			if err != nil {
+				panic(err)
+			}
+			extra, s = time.Duration(ns), s[:i]
+		}
 		v, err := time.Parse("20060102-15:04:05.000", s)
 		if err != nil {
 			panic(err)
 		}
-		return v
+		return v.Add(extra)
 	case "Bool":
 		return s == "Y"
 	}
@@ -315,7 +342,7 @@ func mkVal(typ string, p *pop) fix.Value {
 		return v
 	default:
 		v := emptyVal(typ)
-		if err := v.FromBytes([]byte(p.Val)); err != nil {
+		if err := v.FromBytes([]byte(wireText(p.Val))); err != nil {
 			panic(fmt.Sprintf("FromBytes(%q) on %s: %v", p.Val, typ, err))
 		}
 		return v
@@ -435,7 +462,7 @@ func fillEntry(f []*node, ps []*pop, c *fix.Component, mode int) {
 			if mode == 1 {
 				kv := c.Get(i).(*fix.KeyValue)
 				if ps[i].Route == 'p' {
-					if err := kv.FromBytes([]byte(ps[i].Val)); err != nil {
+					if err := kv.FromBytes([]byte(wireText(ps[i].Val))); err != nil {
 						panic(err)
 					}
 				} else if err := kv.Value.Set(decode(t.Typ, ps[i].Val)); err != nil {
